@@ -352,7 +352,13 @@ def build_cases(ctx, results, inputs):
             ctx.tally("steps." + st["kind"])
             if "fail" in rec:
                 ctx.tally("steps.tool_failed")
-                ctx.l2_disagreement("whatshap failed inside a history", [desc + " :: " + rec["fail"]])
+                with open(os.path.join(d, rec["in"]), "rb") as f:
+                    nul_input = b"\x00" in f.read()
+                if nul_input:
+                    # the file written by the previous step (already reported there) cannot be read by htslib
+                    ctx.tally("steps.tool_failed_on_nul_input")
+                else:
+                    ctx.l2_disagreement("whatshap failed inside a history", [desc + " :: " + rec["fail"]])
                 continue
             fin = vcfabs.parse_vcf(os.path.join(d, rec["in"]))
             it = vcfabs.Interner()
@@ -537,7 +543,7 @@ def quiet_htslib():
 
 def run(ctx):
     quiet_htslib()
-    run_histories(ctx, ctx.n(80, 600))
+    run_histories(ctx, ctx.n(120, 600))
 
 
 def replay(ctx, data):
